@@ -44,7 +44,11 @@ func init() {
 }
 
 // the lexer-class alphabet of DESIGN.md section 5 group A
-var alphabet = []string{"a", "task", "_", "é", "日", "1", " ", "\t", "\n", "\r\n", " ", "#", "\"", "(", ")", "{", "}", ",", ":=", "->", "{{", "}}", ".", "$", "\xff", ";"}
+var alphabet = []string{"a", "task", "_", "é", "日", "1", " ", "\t", "\n", "\r\n", " ", "#", "\"", "(", ")", "{", "}", ",", ":=", "->", "{{", "}}", ".", "$", "\xff", ";", "\r"}
+
+// further symbols, used where the number of combinations allows (strings of length <= 2 at top level and inside the contexts, mutations):
+// a byte order mark, Unicode spaces outside Latin-1, NEL, letters whose last UTF-8 byte is 0x85 / 0xA0, and those two bytes on their own
+var extAlphabet = append(append([]string{}, alphabet...), "\ufeff", "\u3000", "\u2028", "\u0085", "à", "х", "\xa0", "\x85")
 
 func hx(s string) string { return hex.EncodeToString([]byte(s)) }
 
@@ -446,7 +450,7 @@ func mutate(r *rand.Rand, s string) string {
 	b := []byte(s)
 	n := 1 + r.Intn(3)
 	for i := 0; i < n; i++ {
-		sym := alphabet[r.Intn(len(alphabet))]
+		sym := extAlphabet[r.Intn(len(extAlphabet))]
 		switch k := r.Intn(4); {
 		case k == 0 || len(b) == 0: // insert a class symbol
 			p := r.Intn(len(b) + 1)
@@ -591,6 +595,7 @@ func syntaxCmd(args []string) error {
 			wk.stop()
 		}
 	}()
+	var runImplOnly func(source, src string)
 	run := func(source, src string) {
 		h := fnv.New64a()
 		h.Write([]byte(src))
@@ -676,6 +681,32 @@ func syntaxCmd(args []string) error {
 		}
 	}
 
+	// runImplOnly: inputs too long for the extracted model (its lexer is quadratic in the input length): the implementation alone,
+	// judged by the direct oracles of the worker (tiling and line numbers of C16, located errors of C08)
+	runImplOnly = func(source, src string) {
+		if wk == nil {
+			wk, served = startSynWorker(self), 0
+		}
+		served++
+		st.BySource[source]++
+		st.LenHist[lenBucket(len(src))]++
+		resp, ok := wk.ask(hx(src))
+		if !ok {
+			wk.stop()
+			wk = nil
+			fail("C08", src[:40]+"...", "lexing/parsing this long input crashed or hung the process")
+			return
+		}
+		parts := strings.SplitN(resp, "\t", 3)
+		if len(parts) == 3 && parts[1] != "" {
+			for _, e := range strings.Split(parts[1], "\x1e") {
+				if pd := strings.SplitN(e, "\x1f", 2); len(pd) == 2 {
+					fail(pd[0], fmt.Sprintf("%s...(%d bytes)...%s", src[:30], len(src), src[len(src)-30:]), pd[1])
+				}
+			}
+		}
+	}
+
 	if *only != "" {
 		f, err := os.Open(*only)
 		if err != nil {
@@ -753,6 +784,30 @@ func syntaxCmd(args []string) error {
 				if (ci+i)%*nshards == *shard {
 					recCtx(c, a, 1)
 				}
+			}
+		}
+		// (b3) the extended alphabet, strings of length <= 2, at top level and inside every context; and very long lines
+		for i, a := range extAlphabet {
+			if i%*nshards != *shard {
+				continue
+			}
+			run("exhaustive-extended", a)
+			for _, b := range extAlphabet {
+				run("exhaustive-extended", a+b)
+				for _, c := range contexts {
+					run("exhaustive-extended-in-context", c[0]+a+b+c[1])
+				}
+			}
+			for _, c := range contexts {
+				run("exhaustive-extended-in-context", c[0]+a+c[1])
+			}
+		}
+		if *shard == 0 {
+			for _, n := range []int{65535, 65536, 70000} {
+				long := strings.Repeat("x", n)
+				runImplOnly("long-line(impl only)", "#"+long+"\nGLOBAL := \"hello")
+				runImplOnly("long-line(impl only)", "task a() {\n    echo "+long+"\n}\n???")
+				runImplOnly("long-line(impl only)", "A := \""+long+"\"\ntask b( {")
 			}
 		}
 		// (c) seeded random programs, each with a random prefix (truncation)
